@@ -212,6 +212,7 @@ def case_history(ctx, case):
         return keys
 
     nops = rng.randint(25, 60)
+    look_p = rng.choice([1.0, 1.0, 0.5, 0.2])          # how often the listings are looked at: after every operation, or only now and then
     complete_at = {rng.randrange(nops): rng.choice(models)} if rng.random() < 0.3 else {}
     stopped = None
     reported = set()
@@ -381,6 +382,11 @@ def case_history(ctx, case):
                             trace.append('  + deregister_component')
             else:
                 continue
+        if step < nops - 1 and rng.random() >= look_p:
+            # nobody looks at the listings after this operation: several changes pile up between two looks (a model step that culls and
+            # spawns; a listing cached and validated by its length would go stale exactly then)
+            ctx.count('operations_after_which_nobody_looked')
+            continue
         before_empty = ctx.counters.get('empty_answers', 0)
         diffs = observe(ctx, models, types, step)
         if ctx.counters.get('empty_answers', 0) > before_empty:
